@@ -80,7 +80,13 @@ def v1(ctx):
     if not pv_edges:
         raise mir.AnchorMissing("PVar arm of ematch_impl")
     n = 0
-    for d in nonempty_return_defs(b):
+    sites = nonempty_return_defs(b)
+    if b.local_ty(0) == "()":
+        # the states are handed back through a `&mut Vec<State>` out-parameter: a result is what is pushed there
+        outs = {b.var_names.get(l) for l in range(1, b.argc + 1) if b.local_ty(l).startswith("&mut") and "Vec<" in b.local_ty(l)}
+        sites = [{"bb": c.bb} for c in b.calls if c.callee and c.callee.name in ("push", "extend", "append") and c.args and not b.blocks[c.bb]["cleanup"]
+                 and isinstance(strip_role(b.role_of_operand(c.args[0])), tuple) and strip_role(b.role_of_operand(c.args[0]))[0] == "param" and strip_role(b.role_of_operand(c.args[0]))[1] in outs]
+    for d in sites:
         if not b.dominated_by(d["bb"], pv_edges):
             continue
         n += 1
@@ -262,6 +268,23 @@ def v4(ctx):
     for c in rec:
         st = b.role_of_operand(c.args[2])
         ok = role_mentions_call(st, "union_slot")
+        if not ok:
+            # in-place form: `if union_slot(x, y, &mut st2) { .. unify(.., st2, ..) }` — the recursion works on the very state the
+            # slot union was made in, behind its `true` answer
+            st_r = strip_role(st)
+            for u in b.calls:
+                if not (u.callee and u.callee.name == "union_slot") or b.blocks[u.bb]["cleanup"]:
+                    continue
+                inplace = any(mir.op_place(a) is not None and b.local_ty(mir.op_place(a)["l"]).startswith("&mut") and strip_role(b.role_of_operand(a)) == st_r for a in u.args)
+                if not inplace or b.local_ty(u.dest["l"]) != "bool":
+                    continue
+                for sb in b.switch_blocks():
+                    t = b.blocks[sb]["term"]
+                    pl = mir.op_place(t["discr"])
+                    if pl is not None and not pl["p"] and pl["l"] == u.dest["l"]:
+                        true_e = [("e", sb, "otherwise")] if any(v == "0" for v, _ in t["cases"]) else [("e", sb, "1")]
+                        if b.dominated_by(c.bb, true_e):
+                            ok = True
         ctx.check(ok, "recursion-after-slot-union", "the recursive attempt uses the state returned by a successful union_slot",
                   "unify recurses with state %s, not with the result of union_slot" % role_str(st)[:100], where_of(b, c.bb))
     # operands are canonicalised against the state first
@@ -457,7 +480,12 @@ def v10(ctx):
                       "%s relates the slots of an e-node to the pattern node's without their name-free shapes having been compared: a node with another operator / another binding structure is accepted as a match" % C.short(rid),
                       where_of(c.body, c.bb))
         # (b) registration before unification, same slot
-        unions = [c for sub in b.all_bodies() for c in sub.calls if c.callee and c.callee.target in crate.bodies and crate.bodies[c.callee.target].local_ty(0).startswith("std::option::Option<rewrite::multipat::MultiState")
+        def is_slot_union(t_):
+            # `fn union_slot(x, y, st) -> Option<MultiState>`, or in place: `fn union_slot(x, y, st: &mut MultiState) -> bool`
+            if t_.local_ty(0).startswith("std::option::Option<rewrite::multipat::MultiState"):
+                return True
+            return t_.local_ty(0) == "bool" and any(t_.local_ty(l) == "&mut rewrite::multipat::MultiState" for l in range(1, t_.argc + 1)) and sum(1 for l in range(1, t_.argc + 1) if t_.local_ty(l) == "slot::Slot") >= 2
+        unions = [c for sub in b.all_bodies() for c in sub.calls if c.callee and c.callee.target in crate.bodies and is_slot_union(crate.bodies[c.callee.target])
                   and c.callee.target != rid and not sub.blocks[c.bb]["cleanup"]]
         ctx.floor("slot unifications in " + C.short(rid), len(unions), 1)
         for u in unions:
